@@ -22,7 +22,7 @@ SPEC = {
     "design_ref": "DESIGN.md section 5, C11",
     "budget_s": {"quick": 50, "thorough": 600},
     "needs": ["probe-rel", "cli-rel"],
-    "needs_thorough": ["probe-rel", "probe-chk"],
+    "needs_thorough": ["probe-rel", "probe-chk", "cli-rel"],
     "rule": ("single-block jobs: one per output length L in 0..4096 (x contents), built from #d8 bytes plus one #dK tail; "
              "multi-block jobs: 2-5 blocks separated by byte-aligned gaps or placed in banks; every job formatted in 17 "
              "format spellings; non-trivial = (length, content kind) pair whose formats were all decoded, with L > 0; "
